@@ -571,41 +571,54 @@ Lemma panic_of_bind {A B} (r : res cerr A) (f : A -> res cerr B) p :
   (forall a q, f a <> Panic q) -> bind r f = Panic p -> r = Panic p.
 Proof. intros Hf H. apply bind_panic in H as [H|(a & _ & H)]; [assumption|]. exfalso. eapply Hf; eassumption. Qed.
 
+Lemma gde_init_panics e pos g b fds p n : len b < 18446744073709551616 -> gde n (ginit_dst e pos g b fds) = Panic p ->
+  (p = PStack /\ stack_limit < len b) \/ (p = PArith /\ 256 <= len b).
+Proof. intros Hb H0. pose proof (gde_panics n (ginit_dst e pos g b fds) p (wfst_init e pos g b fds Hb) H0) as H1. exact H1. Qed.
+
+Lemma value_top_panic e pos b fds p : gde_value_top e pos b fds = Panic p -> gde gde_fuel (ginit_dst e pos SVariant b fds) = Panic p.
+Proof.
+  unfold gde_value_top. intros H. apply (panic_of_bind (gde gde_fuel (ginit_dst e pos SVariant b fds))) in H; [exact H|].
+  intros [v st] q. destruct v; discriminate.
+Qed.
+Lemma struct_top_panic e pos g b fds p : gde_struct_top e pos g b fds = Panic p ->
+  gde gde_fuel (ginit_dst e pos (match g with SStruct _ => g | _ => SStruct [g] end) b fds) = Panic p.
+Proof.
+  unfold gde_struct_top. intros H.
+  apply (panic_of_bind (gde gde_fuel (ginit_dst e pos (match g with SStruct _ => g | _ => SStruct [g] end) b fds))) in H; [exact H|].
+  intros [v st] q. discriminate.
+Qed.
+Lemma typed_top_panic e pos g b fds p : gde_typed_top e pos g b fds = Panic p -> gde gde_fuel (ginit_dst e pos g b fds) = Panic p.
+Proof.
+  unfold gde_typed_top. intros H. apply (panic_of_bind (gde gde_fuel (ginit_dst e pos g b fds))) in H; [exact H|].
+  intros [v st] q. discriminate.
+Qed.
+
 Theorem gde_tops_panics e pos g b fds p : len b < 18446744073709551616 ->
   gde_value_top e pos b fds = Panic p \/ gde_struct_top e pos g b fds = Panic p \/ gde_typed_top e pos g b fds = Panic p ->
   (p = PStack /\ stack_limit < len b) \/ (p = PArith /\ 256 <= len b).
 Proof.
-  intros Hb H.
-  assert (Hgen : forall n g0, gde n (ginit_dst e pos g0 b fds) = Panic p ->
-                 (p = PStack /\ stack_limit < len b) \/ (p = PArith /\ 256 <= len b)).
-  { intros n g0 H0. pose proof (gde_panics n (ginit_dst e pos g0 b fds) p (wfst_init e pos g0 b fds Hb) H0) as H1. exact H1. }
-  unfold gde_value_top, gde_struct_top, gde_typed_top in H. generalize dependent gde_fuel. intros n H.
-  destruct H as [H|[H|H]].
-  - apply (panic_of_bind (gde n (ginit_dst e pos SVariant b fds))) in H; [exact (Hgen _ _ H)|]. intros [v st] q. destruct v; discriminate.
-  - apply (panic_of_bind (gde n (ginit_dst e pos _ b fds))) in H; [exact (Hgen _ _ H)|]. intros [v st] q. discriminate.
-  - apply (panic_of_bind (gde n (ginit_dst e pos g b fds))) in H; [exact (Hgen _ _ H)|]. intros [v st] q. discriminate.
+  intros Hb [H|[H|H]].
+  - apply value_top_panic in H. exact (gde_init_panics _ _ _ _ _ _ _ Hb H).
+  - apply struct_top_panic in H. exact (gde_init_panics _ _ _ _ _ _ _ Hb H).
+  - apply typed_top_panic in H. exact (gde_init_panics _ _ _ _ _ _ _ Hb H).
 Qed.
 
 Theorem gde_tops_small_nopanic e pos g b fds p : len b < 256 ->
   gde_value_top e pos b fds <> Panic p /\ gde_struct_top e pos g b fds <> Panic p /\ gde_typed_top e pos g b fds <> Panic p.
 Proof.
-  intros Hb.
-  assert (H : forall r, r = Panic p -> (r = gde_value_top e pos b fds \/ r = gde_struct_top e pos g b fds \/ r = gde_typed_top e pos g b fds) -> False).
-  { intros r Hr Hc. assert (Hb' : len b < 18446744073709551616) by lia.
-    destruct (gde_tops_panics e pos g b fds p Hb') as [[_ Hx]|[_ Hx]].
-    - destruct Hc as [->|[->|->]]; tauto.
-    - unfold stack_limit in Hx. lia.
-    - lia. }
-  repeat split; intros Hx; eapply H; eauto.
+  intros Hb. assert (Hb' : len b < 18446744073709551616) by lia.
+  assert (Hno : ~ ((p = PStack /\ stack_limit < len b) \/ (p = PArith /\ 256 <= len b))).
+  { unfold stack_limit. intros [[_ Hx]|[_ Hx]]; lia. }
+  repeat split; intros Hx; apply Hno; apply (gde_tops_panics e pos g b fds p Hb'); tauto.
 Qed.
 
-(* with the repaired reader: the same entry points *)
+(* with the repaired reader: the same entry point *)
 Definition gde_repaired_top (e : endian) (pos : N) (g : sig) (b : bytes) (fds : list N) : res cerr (gval * N) :=
   let* (v, st) := gde_repaired gde_fuel (ginit_dst e pos g b fds) in Ok (v, r_pos st).
 Theorem gde_repaired_top_nopanic e pos g b fds p : len b < 18446744073709551616 ->
   gde_repaired_top e pos g b fds = Panic p -> p = PStack /\ stack_limit < len b.
 Proof.
-  intros Hb H. unfold gde_repaired_top in H. generalize dependent gde_fuel. intros n H.
-  apply (panic_of_bind (gde_repaired n (ginit_dst e pos g b fds))) in H; [|intros [v st] q; discriminate].
-  pose proof (gde_repaired_nopanic n (ginit_dst e pos g b fds) p (wfst_init e pos g b fds Hb) H) as H1. exact H1.
+  intros Hb H. unfold gde_repaired_top in H.
+  apply (panic_of_bind (gde_repaired gde_fuel (ginit_dst e pos g b fds))) in H; [|intros [v st] q; discriminate].
+  pose proof (gde_repaired_nopanic gde_fuel (ginit_dst e pos g b fds) p (wfst_init e pos g b fds Hb) H) as H1. exact H1.
 Qed.
